@@ -278,6 +278,128 @@ func c07BuildHistories(tier string) core.Source {
 	}}
 }
 
+// c07BuildConfig: the module table comes from configuration FILES, loaded by every loader the daemon has
+// (FromString, FromFile, FromDefaultFiles with user and system-wide configuration directories populated,
+// and maincmd's --server --daemon route that calls FromDefaultFiles itself). A module whose entry does not
+// say writable = true must refuse uploads whatever other files, other modules or other keys say.
+func c07BuildConfig(tier string) core.Source {
+	drive.Quiet()
+	// how the user's file spells "not writable" for module i, and what stands around it
+	spell := []string{"", "writable = false\n", "# writable = true\n", "acl = []\n"}
+	type cs struct {
+		spell  int
+		nUser  int // modules in the user's file (the read-only ones); a writable one is appended when > 0
+		nSys   int // modules in a system-wide file, all writable = true
+		loader int // 0 FromString, 1 FromFile, 2 FromDefaultFiles, 3 maincmd --server --daemon with cfg == nil
+	}
+	var cases []cs
+	for sp := range spell {
+		for _, nu := range []int{1, 2} {
+			for _, ns := range []int{0, 1, 3} {
+				for loader := 0; loader < 4; loader++ {
+					cases = append(cases, cs{sp, nu, ns, loader})
+				}
+			}
+		}
+	}
+	return core.FuncSource{N: len(cases), F: func(i int) core.Result {
+		c := cases[i]
+		res := core.Result{Case: fmt.Sprintf("configuration files: %d read-only module(s) spelled %q + one writable module in the user's file, %d writable module(s) in a system-wide file, loader %d", c.nUser, spell[c.spell], c.nSys, c.loader)}
+		dir := workDir()
+		defer cleanup(dir)
+		var user, sys strings.Builder
+		for k := 0; k < c.nUser; k++ {
+			d := filepath.Join(dir, fmt.Sprintf("ro%d", k))
+			c07ModuleTree().Materialise(d)
+			fmt.Fprintf(&user, "[[module]]\nname = \"ro%d\"\npath = %q\n%s\n", k, d, spell[c.spell])
+		}
+		rw := filepath.Join(dir, "rw")
+		c07ModuleTree().Materialise(rw)
+		fmt.Fprintf(&user, "[[module]]\nname = \"rw\"\npath = %q\nwritable = true\n", rw)
+		for k := 0; k < c.nSys; k++ {
+			d := filepath.Join(dir, fmt.Sprintf("sys%d", k))
+			c07ModuleTree().Materialise(d)
+			fmt.Fprintf(&sys, "[[module]]\nname = \"sys%d\"\npath = %q\nwritable = true\nacl = [\"allow all\"]\n\n", k, d)
+		}
+		home, etc := filepath.Join(dir, "home-config"), filepath.Join(dir, "etc-xdg")
+		os.MkdirAll(home, 0o755)
+		os.MkdirAll(etc, 0o755)
+		os.WriteFile(filepath.Join(home, "gokr-rsyncd.toml"), []byte(user.String()), 0o644)
+		if c.nSys > 0 {
+			os.WriteFile(filepath.Join(etc, "gokr-rsyncd.toml"), []byte(sys.String()), 0o644)
+		}
+		for _, kv := range [][2]string{{"XDG_CONFIG_HOME", home}, {"XDG_CONFIG_DIRS", etc}} {
+			old, had := os.LookupEnv(kv[0])
+			os.Setenv(kv[0], kv[1])
+			defer func(k, v string, had bool) {
+				if had {
+					os.Setenv(k, v)
+				} else {
+					os.Unsetenv(k)
+				}
+			}(kv[0], old, had)
+		}
+		var cfg *rsyncdconfig.Config
+		var err error
+		switch c.loader {
+		case 0:
+			cfg, err = rsyncdconfig.FromString(user.String())
+		case 1:
+			cfg, err = rsyncdconfig.FromFile(filepath.Join(home, "gokr-rsyncd.toml"))
+		case 2:
+			cfg, _, err = rsyncdconfig.FromDefaultFiles()
+		}
+		if err != nil {
+			res.Inconcl = "harness: configuration did not load: " + err.Error()
+			return res
+		}
+		session := func(module string) (errLine string, scriptErr error) {
+			c2s, s2c := drive.NewPipe(false), drive.NewPipe(false)
+			done := make(chan struct{})
+			go func() {
+				defer close(done)
+				if c.loader == 3 {
+					osenv := &rsyncos.Env{Stdin: c2s, Stdout: s2c, Stderr: io.Discard, DontRestrict: true}
+					maincmd.Main(context.Background(), osenv, []string{"gokr-rsync", "--server", "--daemon", "."}, nil)
+				} else {
+					srv, err := rsyncd.NewServer(cfg.Modules, rsyncd.DontRestrict(), rsyncd.WithStderr(io.Discard), rsyncd.WithLogger(nullLogger{}))
+					if err == nil {
+						srv.HandleDaemonConn(context.Background(), rsyncd.NewConnection(c2s, s2c, "127.0.0.1:7"))
+					}
+				}
+				s2c.Close()
+			}()
+			script := c07Script(0)
+			script.BeforeGoodbye = func() { c2s.Close() }
+			_, errLine, scriptErr = peer.ScriptedDaemonClientSender(&drive.RW{Reader: s2c, Writer: c2s}, module, []string{"--server", "-rt", ".", module + "/"}, script, false)
+			c2s.Close()
+			<-done
+			return
+		}
+		for k := 0; k < c.nUser; k++ {
+			module := fmt.Sprintf("ro%d", k)
+			before, _ := tm.Snapshot(dir, false)
+			errLine, scriptErr := session(module)
+			after, _ := tm.Snapshot(dir, false)
+			cnt(&res, "transitions", 1)
+			cnt(&res, "states", int64(len(before)))
+			cnt(&res, "traces_validated_against_impl", 1)
+			ff := []string{"part", "config", "loader", fmt.Sprint(c.loader)}
+			if d := tm.Diff(before, after, tm.Full); len(d) > 0 {
+				res.Fail = core.Fail("read_only_module_or_neighbour_modified", fmt.Sprintf("%s: upload to %s: %s", res.Case, module, trunc(strings.Join(d, " ; "), 400)), ff...)
+				return res
+			}
+			if scriptErr == nil {
+				res.Fail = core.Fail("upload_to_read_only_module_not_refused", fmt.Sprintf("%s: upload to %s was not refused (%q)", res.Case, module, errLine), ff...)
+				return res
+			}
+		}
+		res.Nontrivial = true
+		res.Outcome = fmt.Sprintf("refused/loader=%d", c.loader)
+		return res
+	}}
+}
+
 func c07BuildTransports(tier string) core.Source {
 	drive.Quiet()
 	var cases []c07Case
@@ -303,10 +425,11 @@ func init() {
 		Level: "model_checking",
 		Rule: "mem: every subset of the receive-mode flag alphabet {-r,-l,-p,-t,-D,-c,-I,-n,--delete,-v} (1024; quick: all subsets of <=2 flags on every (target, module config), larger subsets on a third of them) x target forms {mod/, mod/sub/, mod/../x, mod, mod/sub/newdir/} x module configurations {one read-only directory module; read-only module between writable modules with prefix-related names (module, mod, mo); fs.FS-backed module}, uploaded by a scripted client speaking the daemon protocol with benign and hostile file lists; transports: the same over TCP (Server.Serve) and over stdin/stdout (maincmd.Main --server --daemon). " +
 			"histories: one long-lived Server with a read-only module sharing its directory with a writable one (and further read-only/writable neighbours); after 0, 1 or 2 rounds of legitimate uploads through the writable modules, uploads addressed to the read-only modules with 8 flag sets x 5 target forms must still be refused and change nothing. " +
+			"config: module tables loaded from configuration files by each loader (FromString, FromFile, FromDefaultFiles and the --server --daemon route, with user and system-wide configuration directories populated) for 4 spellings of a non-writable module x 1-2 such modules x 0/1/3 writable modules in a system-wide file. " +
 			"oracle: the full snapshot of the directory holding all modules is identical before/after, the client sees an error mentioning read only / @ERROR. states = entries compared, transitions = sessions",
 		Assum: []string{"fs.FS module is an os.DirFS over the read-only directory"},
 		Parts: func(tier string) []core.Part {
-			return []core.Part{{Name: "mem", Build: c07BuildMem}, {Name: "histories", Build: c07BuildHistories}, {Name: "transports", Build: c07BuildTransports}}
+			return []core.Part{{Name: "mem", Build: c07BuildMem}, {Name: "histories", Build: c07BuildHistories}, {Name: "config", Build: c07BuildConfig}, {Name: "transports", Build: c07BuildTransports}}
 		},
 	})
 }
